@@ -13,7 +13,7 @@ PROP = {
     "level_note": "Trusted: Lean kernel + 3 standard axioms; the hand model's faithfulness as exercised by the correspondence stream; "
                   "encoding_rs for the seven legacy code pages (a parameter of the model with a round-trip hypothesis); "
                   "Rust str::trim / char::is_whitespace (modelled as the Unicode White_Space set); String::from_utf16 as reference decoder.",
-    "expect_theorems": ["C20_field_matches_source", "C20_parse_back", "C20_parse_back_std", "C20_rect", "C20_cell", "C20_utf16", "C20_utf8", "C20_end_to_end",
+    "expect_theorems": ["C20_field_matches_source", "C20_writer_matches_source", "C20_parse_back", "C20_parse_back_std", "C20_rect", "C20_cell", "C20_utf16", "C20_utf8", "C20_end_to_end",
                         "C20_highest", "C20_active", "C20_trim", "C20_wrap", "C20_empty_sheet", "C20_single_empty_column", "C20_zero_columns_fails",
                         "C20_set_active_unchecked"],
     "rule": "a case = `reset`, 0-3 extra sheets, 0-25 set_value_string calls on a sparse grid (rows<=40, cols<=9; values over "
